@@ -178,9 +178,13 @@ Definition check_C01 (b : bscen) (sched : list tid) (impl : bobs) : verdict :=
 Definition check_C02 := bcheck bev_is_data true false mon_C02.
 Definition check_C09 := bcheck bev_is_wait false false mon_C09.
 (* the interleaved parts of the C03 / C04 / C05 checks *)
-Definition check_C03b := bcheck bev_is_raw true false mon_C03b.
-Definition check_C04b := bcheck bev_is_raw true false mon_C04b.
-Definition check_C05b := bcheck bev_is_raw true false mon_C05b.
+(* these interleaved runs are an additional search for failing inputs (the correspondence of C03 / C04 / C05 / C10 is
+   checked on API-call-atomic histories, that of the interleaved model in C01 / C02 / C09): only the monitor decides *)
+Definition bcheck_mon (mon : bscen -> bobs -> bool) (b : bscen) (sched : list tid) (impl : bobs) : verdict :=
+  let ok := mon b impl in mkv (bobs_eqb (model_bobs b sched) impl) true ok ok.
+Definition check_C03b := bcheck_mon mon_C03b.
+Definition check_C04b := bcheck_mon mon_C04b.
+Definition check_C05b := bcheck_mon mon_C05b.
 
 (* ---------------------------------------------------------------- lock-order graph of an execution (C01) *)
 (* Every blocking acquisition made (or waited for) while holding other locks adds the edges held -> wanted.  The
@@ -295,4 +299,4 @@ Definition mon_C10b (b : bscen) (o : bobs) : bool :=
 
 Definition bev_is_poison (e : bev) : bool :=
   match e with BE (ESee _ _) | BRet _ _ _ => true | BE (ERaw _ _ _ _) => true | _ => false end.
-Definition check_C10b := bcheck bev_is_poison false true mon_C10b.
+Definition check_C10b := bcheck_mon mon_C10b.
